@@ -5,6 +5,7 @@ import (
 	"math/bits"
 
 	proto "github.com/golang/protobuf/proto"
+	"google.golang.org/protobuf/types/known/structpb"
 	"google.golang.org/protobuf/types/known/wrapperspb"
 	"pgregory.net/rapid"
 
@@ -183,6 +184,17 @@ func (f Frame) Into(m proto.Message) bool {
 			return false
 		}
 		x.Value = f.Int
+	case *structpb.ListValue:
+		if f.Kind != "list" || f.Versioned {
+			return false
+		}
+		fillList(x, f.Payload)
+	case *ListV:
+		if f.Kind != "list" || !f.Versioned {
+			return false
+		}
+		fillList(x.ListValue, f.Payload)
+		x.Ver = string(f.Ver)
 	default:
 		return false
 	}
